@@ -893,4 +893,139 @@ theorem aux_all_noBrk (brk : Nat → Bool) (f : Bool) (s : List Nat) :
             · exact ih false l0 (by rw [hs]; simp) d hd
           · exact ih false l (by rw [hs]; simp [hl])
 
+/-! ### Part E: joining lines and splitting them again (`indent`) -/
+
+theorem aux_eq_nil (brk : Nat → Bool) (f : Bool) (s : List Nat) (h : splitlinesAux brk f s = []) :
+    s = [] ∨ (f = true ∧ s = [10]) := by
+  cases s with
+  | nil => exact Or.inl rfl
+  | cons c cs =>
+    right
+    rw [aux_cons] at h
+    by_cases h1 : (f && c == 10) = true
+    · simp only [h1, if_true] at h
+      have hcs : cs = [] := by
+        by_cases hcs : cs = []
+        · exact hcs
+        · exact absurd h (aux_ne_nil brk cs hcs)
+      simp at h1
+      exact ⟨h1.1, by rw [h1.2, hcs]⟩
+    · have h1' : (f && c == 10) = false := by simpa using h1
+      simp only [h1', Bool.false_eq_true, if_false] at h
+      by_cases hb : brk c = true
+      · simp [hb] at h
+      · simp only [hb, if_false] at h
+        exact absurd h (consHead_ne_nil _ _)
+
+theorem consHead_ne_singleton_nil (c : Nat) (x : List (List Nat)) : consHead c x ≠ [[]] := by
+  cases x <;> simp [consHead]
+
+/-- a split that consists of one empty line comes from a text that is one line break -/
+theorem aux_singleton_nil (brk : Nat → Bool) (hb10 : brk 10 = true) (f : Bool) (s : List Nat)
+    (h : splitlinesAux brk f s = [[]]) : lastIs brk s = true := by
+  induction s generalizing f with
+  | nil => simp [aux_nil] at h
+  | cons c cs ih =>
+    rw [aux_cons] at h
+    by_cases h1 : (f && c == 10) = true
+    · simp only [h1, if_true] at h
+      have := ih false h
+      cases cs with
+      | nil => simp [lastIs] at this
+      | cons d ds => simpa [lastIs] using this
+    · have h1' : (f && c == 10) = false := by simpa using h1
+      simp only [h1', Bool.false_eq_true, if_false] at h
+      by_cases hb : brk c = true
+      · simp only [hb, if_true] at h
+        have h2 : splitlinesAux brk (c == 13) cs = [] := by simpa using h
+        rcases aux_eq_nil brk _ cs h2 with rfl | ⟨_, rfl⟩
+        · simpa [lastIs] using hb
+        · simpa [lastIs] using hb10
+      · simp only [hb, if_false] at h
+        exact absurd h (consHead_ne_singleton_nil _ _)
+
+/-- a break-free line followed by LF is the first line of the split -/
+theorem aux_line_lf (brk : Nat → Bool) (hb10 : brk 10 = true) (l R : List Nat) (hl : NoBrk brk l) :
+    splitlinesAux brk false (l ++ 10 :: R) = l :: splitlinesAux brk false R := by
+  induction l with
+  | nil =>
+    simp only [List.nil_append]
+    rw [aux_cons]
+    simp [hb10]
+  | cons c cs ih =>
+    have hc : brk c = false := hl c (by simp)
+    simp only [List.cons_append]
+    rw [aux_cons, ih (fun d hd => hl d (by simp [hd]))]
+    simp [hc, consHead]
+
+theorem joinWith_eq_nil (sep : List Nat) (hsep : sep ≠ []) (ls : List (List Nat))
+    (h : joinWith sep ls = []) : ls = [] ∨ ls = [[]] := by
+  match ls, h with
+  | [], _ => exact Or.inl rfl
+  | [l], h => right; simp [joinWith] at h; rw [h]
+  | l :: l' :: rest, h => simp [joinWith, hsep] at h
+
+/-- the eight-form split plus the final empty line, on which `iterSplitlines` is characterised -/
+def splitFin (t : List Nat) : List (List Nat) :=
+  eightSplitlines t ++ (if endsWithBreak t then [[]] else [])
+
+theorem splitFin_nil : splitFin [] = [] := by
+  simp [splitFin, eightSplitlines, aux_nil, endsWithBreak, lastIs]
+
+theorem splitFin_ne_singleton_nil (t : List Nat) : splitFin t ≠ [[]] := by
+  intro h
+  unfold splitFin at h
+  by_cases he : endsWithBreak t = true
+  · simp only [he, if_true] at h
+    have h0 : eightSplitlines t = [] := by
+      cases hx : eightSplitlines t with
+      | nil => rfl
+      | cons a as => rw [hx] at h; simp at h
+    have ht : t = [] := by
+      by_cases ht : t = []
+      · exact ht
+      · exact absurd h0 (aux_ne_nil _ t ht)
+    subst ht
+    simp [endsWithBreak, lastIs] at he
+  · have he' : endsWithBreak t = false := by simpa using he
+    rw [he'] at h
+    simp only [Bool.false_eq_true, if_false, List.append_nil] at h
+    exact he (aux_singleton_nil lineBreakChar lineBreakChar_10 false t h)
+
+/-- splitting `'\n'.join(ls)` gives `ls` back, for break-free lines (`ls = ['']` excepted: it joins
+    to the empty text, which has no lines) -/
+theorem splitFin_join (ls : List (List Nat)) (hb : ∀ l ∈ ls, NoBrk lineBreakChar l) (hne : ls ≠ [[]]) :
+    splitFin (joinWith [10] ls) = ls := by
+  match ls, hb, hne with
+  | [], _, _ => simp [joinWith, splitFin_nil]
+  | [l], hb, hne =>
+    have hl : l ≠ [] := by intro h; subst h; exact hne rfl
+    have hn : NoBrk lineBreakChar l := hb l (by simp)
+    have he : endsWithBreak l = false := lastIs_false_of_all _ _ hn
+    simp [joinWith, splitFin, he, eightSplitlines, aux_noBrk lineBreakChar lineBreakChar_10 l hl hn false]
+  | l :: l' :: rest, hb, _ =>
+    have hn : NoBrk lineBreakChar l := hb l (by simp)
+    have hb' : ∀ x ∈ l' :: rest, NoBrk lineBreakChar x := fun x hx => hb x (by simp [hx])
+    have hj : joinWith [10] (l :: l' :: rest) = l ++ 10 :: joinWith [10] (l' :: rest) := by
+      simp [joinWith]
+    rw [hj]
+    unfold splitFin eightSplitlines
+    rw [aux_line_lf lineBreakChar lineBreakChar_10 l _ hn]
+    by_cases hR : joinWith [10] (l' :: rest) = []
+    · rcases joinWith_eq_nil [10] (by simp) _ hR with h | h
+      · cases h
+      · rw [hR, h]
+        simp [aux_nil, endsWithBreak, lastIs_append, lastIs, lineBreakChar]
+    · have hne' : l' :: rest ≠ [[]] := by
+        intro h; rw [h] at hR; exact hR rfl
+      have ih := splitFin_join (l' :: rest) hb' hne'
+      have he : endsWithBreak (l ++ 10 :: joinWith [10] (l' :: rest)) =
+          endsWithBreak (joinWith [10] (l' :: rest)) := by
+        unfold endsWithBreak
+        rw [show l ++ 10 :: joinWith [10] (l' :: rest) = (l ++ [10]) ++ joinWith [10] (l' :: rest) by simp,
+          lastIs_append _ _ _ hR]
+      rw [he]
+      unfold splitFin eightSplitlines at ih
+      rw [List.cons_append, ih]
+
 end C19
